@@ -25,6 +25,9 @@ type Case struct {
 	T        uint32   `json:"threshold"`
 	Conflict string   `json:"conflict"` // double-vote | a-surrounds-b | b-surrounds-a | two-blocks
 	History  int      `json:"benign_history"`
+	// HistoryBatch: the benign history's attestations travel in batch calls (next to an ordinary
+	// account's attestation) instead of single calls.
+	HistoryBatch bool `json:"benign_history_in_batches,omitempty"`
 	Routing  [][]int  `json:"routing"` // per participant: ordered duties (0 = A, 1 = B), repeats allowed
 	// Batch[i][k] says whether participant i's k-th request travels in a batch call (next to a benign
 	// attestation of an ordinary account of that instance) instead of a single call.
@@ -114,11 +117,21 @@ func run(c *Case) (*outcome, *vkit.Violation, error) {
 	target := func(p part) vkit.Target {
 		return vkit.Target{Account: account, PubKey: p.share, ByKey: c.ByKey}
 	}
+	var benign atomic.Uint64
+	benign.Store(1000)
 	// benign common history on every participant
 	for h := 0; h < c.History; h++ {
 		for _, p := range parts {
 			a := &vkit.Att{Slot: 1, BlockRoot: root(9, 1), SrcEpoch: uint64(h), SrcRoot: root(0, 2), TgtEpoch: uint64(h + 1), TgtRoot: root(0, 3), Domain: attDomain()}
-			if r := p.node.Stack.Attest(client, "", target(p), false, a); !r.OK() {
+			if c.HistoryBatch {
+				other := p.node.World.ByPath[vkit.NWallet+"/Account 0"]
+				e := benign.Add(2)
+				b := &vkit.Att{Slot: 1, BlockRoot: root(e, 1), SrcEpoch: e, SrcRoot: root(0, 2), TgtEpoch: e + 1, TgtRoot: root(0, 3), Domain: attDomain()}
+				rs := p.node.Stack.AttestBatch(client, "", []vkit.Target{target(p), vkit.TargetOf(other, false)}, false, []*vkit.Att{a, b})
+				if len(rs) != 2 || !rs[0].OK() {
+					return o, nil, fmt.Errorf("benign batch attestation refused by %d: %+v", p.node.ID, rs)
+				}
+			} else if r := p.node.Stack.Attest(client, "", target(p), false, a); !r.OK() {
 				return o, nil, fmt.Errorf("benign attestation refused by %d: %s", p.node.ID, r.State)
 			}
 			pr := &vkit.Prop{Slot: uint64(h + 1), ParentRoot: root(9, 4), StateRoot: root(0, 5), BodyRoot: root(0, 6), Domain: make([]byte, 32)}
@@ -131,8 +144,6 @@ func run(c *Case) (*outcome, *vkit.Violation, error) {
 	var mu sync.Mutex
 	partials := [2]map[uint64][]byte{{}, {}}
 	offered := [2]map[uint64]bool{{}, {}}
-	var benign atomic.Uint64
-	benign.Store(1000)
 	send := func(p part, d int, batch bool) *vkit.Violation {
 		var r vkit.Res
 		var rt [32]byte
@@ -294,7 +305,7 @@ func TestC14(t *testing.T) {
 		nInst := rapid.IntRange(2, 7).Draw(rt, "instances")
 		ids := rapid.Permutation([]uint64{1, 2, 3, 4, 5, 1 << 63, 1<<64 - 1, 70000, 9}).Draw(rt, "ids")[:nInst]
 		c := &Case{IDs: ids, Conflict: rapid.SampledFrom([]string{"double-vote", "a-surrounds-b", "b-surrounds-a", "two-blocks"}).Draw(rt, "conflict"),
-			History: rapid.IntRange(0, 2).Draw(rt, "history"), Concurrent: rapid.Bool().Draw(rt, "concurrent"), ByKey: rapid.Bool().Draw(rt, "bykey"), ViaGRPC: rapid.Bool().Draw(rt, "grpc")}
+			History: rapid.IntRange(0, 2).Draw(rt, "history"), HistoryBatch: rapid.Bool().Draw(rt, "history_batch"), Concurrent: rapid.Bool().Draw(rt, "concurrent"), ByKey: rapid.Bool().Draw(rt, "bykey"), ViaGRPC: rapid.Bool().Draw(rt, "grpc")}
 		if rapid.IntRange(0, 9).Draw(rt, "square") < 7 {
 			c.N = uint32(nInst)
 			if rapid.Bool().Draw(rt, "fewer") {
@@ -355,6 +366,9 @@ func TestC14(t *testing.T) {
 			}
 			if o.restarts > 0 {
 				vkit.S.Class("instance-restarted-between-deliveries")
+			}
+			if c.History > 0 && c.HistoryBatch {
+				vkit.S.Class("earlier-history-signed-through-batch-calls")
 			}
 			mixed := false
 			for i := range c.Batch {
